@@ -236,6 +236,9 @@ func runCheck(id, tier, repoDir, verifDir string, debug, claim, keep bool) int {
 	claims := loadClaims(filepath.Join(verifDir, "props", id+".claims"))
 	findings := loadFindings(filepath.Join(verifDir, "known_findings.txt"))
 
+	// regular-expression constants (checked first: they add linking axioms)
+	preObls := regexPre(w, id, cfg)
+
 	var results []*FuncResult
 	var jobs []job
 	var missing []string
@@ -308,7 +311,7 @@ func runCheck(id, tier, repoDir, verifDir string, debug, claim, keep bool) int {
 	w.db.dischargeAll(cjobs, cfg)
 
 	// property-specific extra obligations (static / regex / schema)
-	var extraObls []*Obligation
+	extraObls := preObls
 	for _, ex := range pc.Extras {
 		f := extraChecks[ex]
 		if f == nil {
